@@ -57,6 +57,29 @@ def pdecode(s):
         return s, False
 
 
+def _keep_escaped(err):
+    return ("".join("%%%02X" % b for b in err.object[err.start:err.end]), err.end)
+
+
+def _latin1(err):
+    return (err.object[err.start:err.end].decode("latin-1"), err.end)
+
+
+import codecs as _codecs
+_codecs.register_error("c15-keep-escaped", _keep_escaped)
+_codecs.register_error("c15-latin1", _latin1)
+
+
+def pdecode_lenient(s):
+    """the readings of a value whose escapes are not all valid UTF-8: every VALID sequence is the character it encodes; the bytes that are not
+    valid may come out as U+FFFD, stay escaped, or be read one by one as latin-1 - nothing else (in particular a valid sequence is never split)"""
+    try:
+        raw = _ESC_RE.sub(_byte, s.encode("utf-8"))
+    except UnicodeEncodeError:
+        return []
+    return [raw.decode("utf-8", h) for h in ("replace", "c15-keep-escaped", "c15-latin1")]
+
+
 _LETTER_ESC = re.compile(r"%(4[1-9a-fA-F]|5[0-9aA]|6[1-9a-fA-F]|7[0-9aA])")
 
 
@@ -101,9 +124,12 @@ def cache_tails(s):
     out = []
     for m in CACHE_MARK_RE.finditer(s):
         tail = s[m.end():]
-        out.append(tail)
-        if tail[:2].lower() == "s/":          # .../c/s/<tail> : the "s/" (https) marker belongs to the cache prefix
-            out.append(tail[2:])
+        for t in ((tail, tail[2:]) if tail[:2] in ("s/", "S/") else (tail,)):   # .../c/s/<tail> : the "s/" (https) marker belongs to the cache prefix
+            # a tail is a cached URL: something must be there once control characters and surrounding blanks are gone, and it starts with a host
+            # (a query, a fragment or a slash alone are no tail of a cache PATH)
+            c = _CONTROL.sub("", t).strip()
+            if c and c[0] not in "/?#":
+                out.append(t)
     return tuple(out)
 
 
@@ -126,7 +152,11 @@ def provenance_ok(s, result):
     for _key, raw in redirect_params(s):
         dec, exact = pdecode(raw)
         if not exact:
-            undecidable = True
+            alts = pdecode_lenient(raw)
+            if any(result == pre + d for d in alts for pre in ("", "https://", "http://")):
+                return True
+            if not alts or raw.startswith("/") or raw.lower().startswith("%2f"):
+                undecidable = True      # a relative target with undecodable bytes: joined, no verdict
             continue
         if result == dec or result == "https://" + dec or result == "http://" + dec:
             return True
